@@ -622,6 +622,10 @@ func runBufExec(execID int, sc *BScenario, mode string, seed int64, strategy str
 		cleaner = bigbuff.FixedBufferCleaner(sc.Cleaner.Max, sc.Cleaner.Target, nil)
 	}
 	self := sched.Goid()
+	before := map[int64]bool{}
+	for _, g := range sched.Snapshot() {
+		before[g.Gid] = true
+	}
 	opts := sched.Options{Seed: seed, Strategy: strategy, Replay: replay, PCTDepth: 3, IdleProb: 150, MaxSteps: 4000, DFS: bufDFS}
 	if mode == "c" {
 		ctl.Begin(opts)
@@ -756,8 +760,12 @@ func runBufExec(execID int, sc *BScenario, mode string, seed int64, strategy str
 		x.cancels[i]()
 	}
 	// goroutine census: nothing of the library may be left (the cooldown timer goroutine removes itself)
-	left := sched.WaitGone(self, 3*time.Second, func(g sched.GInfo) bool {
-		return libFrame(g) || strings.Contains(g.Stack, "verifharness.")
+	budget := 3 * time.Second
+	if !x.driversDone() {
+		budget = 100 * time.Millisecond // calls that never returned keep their goroutines for ever
+	}
+	left := sched.WaitGone(self, budget, func(g sched.GInfo) bool {
+		return !before[g.Gid] && (libFrame(g) || strings.Contains(g.Stack, "verifharness."))
 	})
 	nlib := 0
 	var leftDesc []string
